@@ -15,6 +15,17 @@ def main():
         res = {}
         for what in ('kevents', 'os_log_events'):
             p = PyKdebugParser()
+            # earlier requests with OTHER settings on the same object: the listing must be a function of the settings
+            # in force and of the dump, not of what was asked before
+            for old in case.get('before', []):
+                p.filter_tid = old['tid']
+                p.filter_process = old['process']
+                p.filter_class = list(old['classes'])
+                p.filter_subclass = list(old['subclasses'])
+                try:
+                    list(getattr(p, what)(io.BytesIO(data)))
+                except Exception:  # noqa
+                    pass
             p.filter_tid = cfg['tid']
             p.filter_process = cfg['process']
             p.filter_class = list(cfg['classes'])
